@@ -366,8 +366,8 @@ func init() {
 				continue
 			}
 			// ... and the values read back from the YAML marshalling are those of the parsed pipeline (keys and
-			// values neither lost nor re-typed). Left to C09: the F17 class, a key spelled <<, and (YAML leg only)
-			// multi-line strings that begin with whitespace.
+			// values neither lost nor re-typed). Left to C09: the F17 class and a key spelled <<. A multi-line string that
+			// begins with whitespace makes the YAML output unreadable (known finding F22).
 			if !emptyPrimaryWithAlias(d) && !hasMergeKey(d) && !strings.Contains(out, `"\u003c\u003c":`) {
 				var outv any
 				json.Unmarshal(r.jsonOut, &outv)
@@ -379,14 +379,22 @@ func init() {
 						excluded = true
 					}
 				}
-				if !excluded {
+				{
 					py, perr := pipeline.Parse(bytes.NewReader(yb))
 					if perr != nil && !warning.Is(perr) {
-						oracleFail("C03", "yaml-marshal-unreadable", c, fmt.Sprintf("the YAML marshalling cannot be parsed again: %v\n%s", perr, yb))
+						cls := "yaml-marshal-unreadable"
+						if excluded {
+							cls = "yaml-marshal-indented-block" // known finding F22
+						}
+						oracleFail("C03", cls, c, fmt.Sprintf("the YAML marshalling cannot be parsed again: %v\n%s", perr, yb))
 						continue
 					}
 					if a, b := projPipeline(r.p), projPipeline(py); a != b {
-						oracleFail("C03", "yaml-marshal-loses-values", c, fmt.Sprintf("the values read back from the YAML marshalling differ from the parsed pipeline's:\nparsed   : %s\nread back: %s\nYAML     : %s", a, b, yb))
+						cls := "yaml-marshal-loses-values"
+						if excluded {
+							cls = "yaml-marshal-indented-block" // known finding F22
+						}
+						oracleFail("C03", cls, c, fmt.Sprintf("the values read back from the YAML marshalling differ from the parsed pipeline's:\nparsed   : %s\nread back: %s\nYAML     : %s", a, b, yb))
 						continue
 					}
 					stat("C03", "yaml-read-back")
